@@ -69,7 +69,7 @@ def exc_matches(cls, handler):
 
 MODULE_NAMES = {"log", "time", "random", "os", "base64", "json", "service", "websocket"}
 BUILTIN_FUNCS = {"isinstance", "type", "len", "sorted", "set", "list", "bool", "any", "sum", "range",
-                 "str", "int", "dict", "generate_mailbox_id"}
+                 "str", "int", "dict", "generate_mailbox_id", "dict_to_bytes", "bytes_to_dict"}
 NAMED_TUPLES = {"SidedMessage": ["side", "phase", "body", "server_rx", "msg_id"],
                 "Usage": ["started", "waiting_time", "total_time", "result"]}
 NT_KINDS = {"SidedMessage": {"side": "str", "phase": "str", "body": "str", "server_rx": "real", "msg_id": "json"}}
@@ -162,7 +162,7 @@ class Exec:
         env = {}
         self.argvals = {}
         args = self.fdef.args
-        names = [a.arg for a in args.args]
+        names = [a.arg for a in args.args] + ([args.kwarg.arg] if args.kwarg else [])
         self_ref = None
         if con.cls:
             self_ref = Const("self", INT)
@@ -375,6 +375,10 @@ class Exec:
             key = self.eval(t.slice, env)
             if isinstance(obj, VMap) and isinstance(key, VConst):
                 obj.d[key.py] = v
+                return
+            from .callbacks import VFrameMap, to_fv
+            if isinstance(obj, VFrameMap) and isinstance(key, VConst):
+                obj.t = Store(obj.t, S(key.py), to_fv(self, v, t))
                 return
             if isinstance(obj, VDict):
                 kt = self.scalar(key, "str", t)
@@ -1027,6 +1031,9 @@ class Exec:
         if recv.cls == "WebSocketServer" and name == "sendMessage":
             from . import callbacks
             return callbacks.send_message(self, recv, args, e)
+        if recv.cls == "WebSocketServer" and name == "send" and self.qual != qual:
+            from . import callbacks
+            return callbacks.apply_send(self, recv, args, kwargs, e)
         if qual not in REGISTRY:
             raise Unsupported("call to %s which has no contract (at %s:%d)" % (qual, self.mod, e.lineno))
         return self.apply_contract(REGISTRY[qual], recv, args, kwargs, e)
@@ -1122,6 +1129,12 @@ def make_symbolic_named(spec, base):
     if spec.startswith("msg"):
         from .contract_types import MSG_SCHEMA
         return VMsg(base, MSG_SCHEMA), []
+    if spec == "framemap":
+        from .callbacks import VFrameMap
+        return VFrameMap(Const(base, H.Frame)), []
+    if spec.startswith("callback:"):
+        _, which, hname = spec.split(":")
+        return VCallback(which, Const("arg." + hname, INT)), []
     return make_symbolic(spec, base)
 
 
